@@ -317,19 +317,31 @@ func c13ErrFold(c *Ctx, fn *ssa.Function, loopCall, errSrc *ssa.Call, rule, name
 func c13MultiWrite(c *Ctx, fn *ssa.Function) {
 	name := fn.String()
 	p := writeParam(fn)
-	var wc *ssa.Call
-	for _, cl := range Calls(fn) {
-		if f := CalleeFunc(cl); f != nil && f.Name() == "Write" && isWriteSig(f.Type().(*types.Signature)) {
-			wc, _ = cl.(*ssa.Call)
-		}
+	isInner := func(cl ssa.CallInstruction) bool {
+		f := CalleeFunc(cl)
+		return f != nil && f.Name() == "Write" && isWriteSig(f.Type().(*types.Signature)) && cl.Common().IsInvoke()
 	}
-	if wc == nil {
-		c.Bad("R13.2", name, "inner-write", fn.Pos(), "no inner Write call")
+	okV, why, wc, wfn := VisitsAll(fn, isInner, fn.Params[0])
+	if wc == nil || wfn != fn {
+		c.Bad("R13.2", name, "inner-write", fn.Pos(), "no inner Write call in a loop of this function (%s)", why)
 		return
 	}
-	c.Check(len(wc.Call.Args) == 1 && wc.Call.Args[0] == p, "R13.2", name, "same-bytes", wc.Pos(), "every sink is given %s (must be the original parameter %s)", Desc(wc.Call.Args[0]), p.Name())
-	ok, over, why := LoopVisitsAll(fn, wc)
-	c.Check(ok && over == fn.Params[0].Name(), "R13.2", name, "visits-all", wc.Pos(), "inner Write is called in a range loop over the receiver (%s) with no early exit %s", over, why)
+	var headCount ssa.Value
+	for _, cl := range Calls(fn) {
+		c2, isCall := cl.(*ssa.Call)
+		if !isCall || !isInner(cl) {
+			continue
+		}
+		c.Check(len(c2.Call.Args) == 1 && c2.Call.Args[0] == p, "R13.2", name, "same-bytes", c2.Pos(), "every sink is given %s (must be the original parameter %s)", Desc(c2.Call.Args[0]), p.Name())
+		if c2 != wc && c2.Referrers() != nil {
+			for _, r := range *c2.Referrers() {
+				if ex, ok := r.(*ssa.Extract); ok && ex.Index == 0 {
+					headCount = ex
+				}
+			}
+		}
+	}
+	c.Check(okV, "R13.2", name, "visits-all", wc.Pos(), "the inner Write reaches every sink of the receiver with no early exit %s", why)
 	c13ErrFold(c, fn, wc, wc, "R13.2", name)
 
 	// min-fold of the count
@@ -345,6 +357,8 @@ func c13MultiWrite(c *Ctx, fn *ssa.Function) {
 	for _, r := range Returns(fn) {
 		if ph, ok := Strip(r.Results[0]).(*ssa.Phi); ok {
 			acc = ph
+		} else if v, isC := ConstInt(r.Results[0]); isC && v == 0 && HasAtom(Guards(r), func(a string) bool { return a == "len("+fn.Params[0].Name()+") == 0" }) {
+			// no sinks at all: nothing written
 		} else {
 			c.Bad("R13.2", name, "min-fold", r.Pos(), "returned count %s is not a loop accumulator", Desc(r.Results[0]))
 			return
@@ -394,6 +408,9 @@ func c13MultiWrite(c *Ctx, fn *ssa.Function) {
 	}
 	seedOK := firstIdiom
 	seedDesc := Desc(seed)
+	if seed != nil && headCount != nil && Strip(seed) == headCount {
+		seedOK = true // the first sink's own count, taken before the loop over the rest
+	}
 	if !seedOK && seed != nil {
 		if isLenOf(seed, p) {
 			seedOK = true
